@@ -23,7 +23,7 @@ fn filtercomp<'a>(i: &'a [u8]) -> (r: IResult<&'a [u8], Tag>) ensures denotes(r,
 //@ ret r
 //@ insert entry
     proof { lemma_lits(); }
-//@ tail at="delimited("
+//@ tail whole
     proof {
         if d_filter(i@) is Some { assert(i@.skip(1).skip((d_filtercomp(i@.skip(1))->0).0).skip(1) =~= i@.skip(1 + (d_filtercomp(i@.skip(1))->0).0 + 1)); }
     }
